@@ -518,3 +518,137 @@ func c14IdleEdge(c *Ctx) {
 	}
 	c.Inconclusive(fmt.Sprintf("idle-edge: %d late exchanges not reproduced", late))
 }
+
+// c14BurstThenIdle: a burst of 12 concurrent exchanges on the one-at-a-time transport (12
+// connections, all pooled afterwards), then silence for longer than the idle time-out (every pooled
+// connection is closed by its own timer), then one exchange: the server is healthy, the exchange
+// succeeds - whatever is left of the pool must not stand in its way.
+func c14BurstThenIdle(c *Ctx) {
+	srv := scripted.NewServer(func(q *scripted.Query) scripted.Action {
+		return scripted.Action{Tag: "echo", Leg: scripted.LegTCP, Delay: 5 * time.Millisecond}
+	})
+	l, err := net.Listen("tcp4", "127.0.0.1:0")
+	if err != nil {
+		c.Inconclusive("burst-then-idle setup: " + err.Error())
+		return
+	}
+	srv.ServeStream(l)
+	defer srv.Close()
+	d := &scripted.Dialer{Network: "tcp", Addr: l.Addr().String()}
+	tr := transport.NewReuseConnTransport(transport.ReuseConnOpts{IdleTimeout: 60 * time.Millisecond, DialContext: d.DialContext})
+	defer c14CloseGuarded(tr)
+	one := func(name string) error {
+		ctx, cancel := context.WithTimeout(context.Background(), 3*time.Second)
+		defer cancel()
+		m, err := c14Guarded(tr, ctx, scripted.BuildQuery(7, name, 1, 1), 3*time.Second+c14GiveUp)
+		if m != nil {
+			dnsmsg.ReleaseMsg(m)
+		}
+		return err
+	}
+	fails := 0
+	first := ""
+	rounds := c.N(8, 60)
+	for round := 0; round < rounds; round++ {
+		burst := []int{12, 7, 20, 9}[round%4]
+		var wg sync.WaitGroup
+		for i := 0; i < burst; i++ {
+			wg.Add(1)
+			go func(i int) { defer wg.Done(); one(fmt.Sprintf("burst%d-%d.c14.test.", round, i)) }(i)
+		}
+		wg.Wait()
+		time.Sleep(150 * time.Millisecond)
+		err := one(fmt.Sprintf("after-idle%d.c14.test.", round))
+		c.Ev.Eval(burst + 1)
+		if err != nil {
+			fails++
+			if first == "" {
+				first = fmt.Sprintf("round %d (burst of %d): %s", round, burst, upShort(err))
+			}
+		}
+	}
+	c.Ev.Count("burst_then_idle_rounds", int64(rounds))
+	if fails >= 2 { // the same thing twice: no fluke
+		c.Violation("burst-then-idle:failed-although-server-healthy:ctor-reuse", fmt.Sprintf("ReuseConnTransport (idle time-out 60 ms): after a burst of concurrent exchanges and 150 ms of silence the next exchange failed in %d of %d rounds although the server answers every query (first: %s)", fails, rounds, first),
+			map[string]any{"fn": "c14BurstThenIdle", "rounds": rounds, "failed": fails, "first": first})
+		return
+	}
+	if fails == 1 {
+		c.Inconclusive("burst-then-idle: one failed exchange: " + first)
+		return
+	}
+	c.Ev.Distinct("burst-then-idle", "ctor-reuse", rounds >= 8)
+}
+
+// c14SilentStall: a pooled pipelined connection whose peer silently stops answering (the TCP
+// connection stays open) while queries keep coming every 40 ms; connections opened later are
+// served normally. The connection's idle time-out (300 ms here) is what detects it: the exchanges
+// waiting on the stalled connection fail over to a new connection and succeed - none waits out its
+// 2 s deadline, however steadily new queries are written to the dead connection.
+func c14SilentStall(c *Ctx) {
+	once := func() (total, bad int, first string, err error) {
+		srv := scripted.NewServer(func(q *scripted.Query) scripted.Action {
+			if q.Conn == 0 && q.ConnSeq >= 5 {
+				return scripted.Action{Tag: "silent", Drop: true}
+			}
+			return scripted.Action{Tag: "echo", Leg: scripted.LegTCP}
+		})
+		l, e := net.Listen("tcp4", "127.0.0.1:0")
+		if e != nil {
+			return 0, 0, "", e
+		}
+		srv.ServeStream(l)
+		defer srv.Close()
+		d := &scripted.Dialer{Network: "tcp", Addr: l.Addr().String()}
+		tr := transport.NewPipelineTransport(transport.PipelineOpts{IsTCP: true, MaxConcurrentQuery: 64, IdleTimeout: 300 * time.Millisecond, DialContext: d.DialContext})
+		defer c14CloseGuarded(tr)
+		var mu sync.Mutex
+		var wg sync.WaitGroup
+		for i := 0; i < 60; i++ {
+			wg.Add(1)
+			go func(i int) {
+				defer wg.Done()
+				const deadline = 2 * time.Second
+				ctx, cancel := context.WithTimeout(context.Background(), deadline)
+				defer cancel()
+				t0 := time.Now()
+				m, err := c14Guarded(tr, ctx, scripted.BuildQuery(uint16(i+1), fmt.Sprintf("stall%d.c14.test.", i), 1, 1), deadline+c14GiveUp)
+				took := time.Since(t0)
+				if m != nil {
+					dnsmsg.ReleaseMsg(m)
+				}
+				mu.Lock()
+				total++
+				if err != nil || took > 1500*time.Millisecond {
+					bad++
+					if first == "" {
+						first = fmt.Sprintf("query %d (sent %d ms after the first): after %v: %s", i, i*40, took, upShort(err))
+					}
+				}
+				mu.Unlock()
+			}(i)
+			time.Sleep(40 * time.Millisecond)
+		}
+		wg.Wait()
+		return
+	}
+	total, bad, first, err := once()
+	if err != nil {
+		c.Inconclusive("silent-stall setup: " + err.Error())
+		return
+	}
+	c.Ev.Eval(total)
+	c.Ev.Count("silent_stall_exchanges", int64(total))
+	if bad < 5 {
+		c.Ev.Count("silent_stall_exchanges_slow_or_failed", int64(bad))
+		c.Ev.Distinct("silent-stall", "ctor-pipeline", bad == 0)
+		return
+	}
+	_, bad2, _, err := once()
+	if err == nil && bad2 >= 5 {
+		c.Violation("silent-stall:exchanges-wait-out-their-deadline:ctor-pipeline", fmt.Sprintf("pipelined TCP transport, idle time-out 300 ms, one query every 40 ms: after the first connection went silent (it stays open, later connections are served) %d of %d exchanges failed or took more than 1.5 s of their 2 s deadline (first: %s); a second run: %d", bad, total, first, bad2),
+			map[string]any{"fn": "c14SilentStall", "exchanges": total, "failed_or_slow": bad, "first": first})
+		return
+	}
+	c.Inconclusive(fmt.Sprintf("silent-stall: %d slow or failed exchanges not reproduced", bad))
+}
